@@ -339,6 +339,36 @@ def hosts_expand():
             h.n(op, ["y", "e"] if swap else ["e", "y"], "z")
             h.out("z")
             out.append(h.build())
+    # every operator the rule set is built for (list read from the rule module at run time), with the attributes and operand
+    # types that operator needs: the replacement must keep them (fmod, direction) and must stay valid (PRelu broadcasts
+    # the slope to X only)
+    try:
+        from onnxscript.rewriter.rules.common import _remove_expand_before_binary_op as _REB
+        ops_of_rule = list(_REB._BROADCAST_BINARY_OPS)
+    except Exception:  # noqa: BLE001
+        ops_of_rule = []
+    variants = []
+    for opn in ops_of_rule:
+        if opn in ("And", "Or", "Xor"):
+            variants.append((opn, TP.BOOL, {}))
+        elif opn == "BitShift":
+            variants += [(opn, TP.UINT8, {"direction": "RIGHT"}), (opn, TP.UINT8, {"direction": "LEFT"})]
+        elif opn.startswith("Bitwise"):
+            variants.append((opn, I64, {}))
+        elif opn == "Mod":
+            variants += [(opn, F, {"fmod": 1}), (opn, I64, {"fmod": 1}), (opn, I64, {})]
+        else:
+            variants.append((opn, F, {}))
+    for (opn, t, attrs), (xs, shp, ys), swap in itertools.product(
+            variants, [((1, 3), [2, 3], (2, 3)), ((3,), [2, 3], (2, 3)), ((2, 3), [2, 3], (3,)), ((1,), [1, 3], (2, 3))], [False, True]):
+        h = H(f"{opn}{attrs if attrs else ''}(Expand(x={list(xs)}:{t}, {shp}), y={list(ys)}) swap={swap}")
+        h.inp("x", t, xs)
+        h.inp("y", t, ys)
+        h.c("s", np.array(shp, dtype=np.int64), "node")
+        h.n("Expand", ["x", "s"], "e")
+        h.n(opn, ["y", "e"] if swap else ["e", "y"], "z", **attrs)
+        h.out("z")
+        out.append(h.build())
     # the expand shape is NOT a constant (Shape of another input): the rule has to reason from the annotated shapes alone;
     # operands of different ranks, dims that coincide on other axes
     dyn = [((1, 3), (4, 3), (4, 1, 3)), ((1, 3), (4, 3), (4, 3)), ((1, 3), (4, 3), (3,)), ((3,), (4, 3), (4, 1, 3)), ((1, 3), (4, 3), (1, 4, 3)),
